@@ -157,8 +157,9 @@ func (e *EpochNotifierPerBlock) step(status internalStatus,
 			" Please check your config", currentBlock, e.Config.StartingEpochBlock)
 		return status, nil
 	}
-	// No new block
-	if currentBlock <= status.lastBlockSeen {
+	// No new block. A block equal to the last one seen is evaluated again (which never notifies twice):
+	// lastBlockSeen starts at StartingEpochBlock, and that block itself must not be swallowed.
+	if currentBlock < status.lastBlockSeen {
 		return status, nil
 	}
 	status.lastBlockSeen = currentBlock
